@@ -21,7 +21,7 @@ ANCHORS = [
 OPS = ["cumsum", "np.cumsum", "add.acc", "subtract.acc", "xor.acc", "sort", "unique", "unique_counts", "diff"]
 FLOOR_TAGS = ["op:" + o for o in OPS] + ["kind:b", "kind:i", "kind:u", "kind:f", "norows", "allempty", "e-first", "e-last", "e-mid", "e-consec", "e-none",
                                          "recv:fresh", "recv:lazyrows", "recv:lazycols+2", "diff-n>len", "v:extreme", "v:dups", "op-write-op"]
-FLOOR_MONITORS = ["c07:compare", "inv:ragged"]
+FLOOR_MONITORS = ["c07:compare"]
 N_RANDOM = {"quick": 36000, "thorough": 400000}
 
 
